@@ -11,6 +11,8 @@ def run(rep, rng, tier, replay=None):
     rebase = []
     for c, fi, m, o, timpl in got:
         n = SC.case_numbers(c)
+        if not all(math.isfinite(b2f(v)) and b2f(v) > 0 for v in fi["x"]):
+            continue              # Feynman parameters over/underflowed: outside the property's quantifier (condition number unbounded)
         x = [Fr(b2f(v)) for v in fi["x"]]
         L = n["L"]
         lm = SC.floats(fi["l_matrix"])
@@ -52,14 +54,13 @@ def run(rep, rng, tier, replay=None):
         for (c, fi), c2, o2 in zip(rebase, cases2, res2):
             f2 = SC.impl_fields(o2["f64"]) if "f64" in o2 else dict(tag="panic")
             rep.count(["rebase", c2["edges"], c2["signature"], c2["point"]], c["L"] >= 2)
+            x = [Fr(b2f(v)) for v in fi["x"]]
+            k1, k2 = X.cond_estimate(X.l_matrix(x, c["signature"])), X.cond_estimate(X.l_matrix(x, c2["signature"]))
+            if k1 is None or k2 is None or max(k1, k2) > Fr(10) ** 8:
+                continue          # beyond the condition numbers the property quantifies over (a pivot may round to <= 0 there)
             if f2["tag"] != "ok":
-                rep.violation("property", "sampling fails after a unimodular change of cycle basis: %s" % str(f2)[:200], case=c2, failing_input=True)
-            else:
-                x = [Fr(b2f(v)) for v in fi["x"]]
-                k1, k2 = X.cond_estimate(X.l_matrix(x, c["signature"])), X.cond_estimate(X.l_matrix(x, c2["signature"]))
-                if k1 is None or k2 is None or max(k1, k2) > Fr(10) ** 8:
-                    continue
-            if f2["tag"] == "ok" and not rel_close(b2f(f2["u"]), b2f(fi["u"]), 1e-11 * float(max(k1, k2))):
+                rep.violation("property", "sampling fails after a unimodular change of cycle basis (kappa %.3g): %s" % (float(max(k1, k2)), str(f2)[:200]), case=c2, failing_input=True)
+            elif not rel_close(b2f(f2["u"]), b2f(fi["u"]), 1e-11 * float(max(k1, k2))):
                 rep.violation("property", "u depends on the cycle basis: %r vs %r" % (b2f(fi["u"]), b2f(f2["u"])), case=c2, failing_input=True)
     rep.cov["rule"] = ("accepted connected graphs with 1..4 loops from the named families, fundamental cycle basis followed by a random unimodular basis change "
                        "and orientation flips; l_matrix and u vs the Coq model (1e-11) and vs exact rationals: entries, symmetry (bit-exact), spanning-tree sum "
